@@ -28,9 +28,6 @@ class Spec:
     def signature(self, plan):
         return self.world.signature(plan)
 
-    def stats(self, plan, jrs):
-        return self.world.stats(plan, jrs[0])
-
     def end_violations(self, plan, jr, engine="jit"):
         """Process-level outcomes: crash / confirmed hang / step budgets are violations of the running property."""
         w = self.world.WORLD
@@ -52,12 +49,46 @@ class Spec:
                         "msg": "op %s did not return within the wall-clock budget [%s engine]; %s" % (op, engine, how)})
         return out
 
+    # every n-th run (by seed) is executed a second time in the interpreted engine under the line-event clock and
+    # judged by the same oracle: both engines are exercised by every property, and a loop that never ends shows up as
+    # a deterministic 'linebudget' observation
+    py_every = {"quick": 40, "thorough": 8}
+    py_line_budget = 3000000
+
+    def wants_py(self, plan):
+        n = self.py_every.get(plan.get("tier", "quick"), 0)
+        return bool(n) and int(plan.get("seed", 1)) % n == 0
+
+    def judge_world(self, plan):
+        return self.world
+
     def evaluate(self, lane, plan, **kw):
+        W = self.judge_world(plan)
         jr = lane.run(plan, engine=self.engines[0], **kw)
-        vs = self.world.judge(plan, jr, self.prop)
-        vs += self.end_violations(plan, jr, self.engines[0])
+        vs = W.judge(plan, jr, self.prop)
+        ev = self.end_violations(plan, jr, self.engines[0])
+        jrs = [jr]
+        if not vs and not ev and self.wants_py(plan):
+            p2 = dict(plan)
+            p2["cfg"] = dict(plan.get("cfg", {}), line_budget=self.py_line_budget)
+            jp = lane.run(p2, engine="py", **kw)
+            vp = W.judge(plan, jp, self.prop) + self.end_violations(plan, jp, "py")
+            for v in vp:
+                v["msg"] = "[interpreted engine] " + str(v.get("msg"))
+                v["engine"] = "py"
+            vs += vp
+            jrs.append(jp)
+        w = W.WORLD
+        vs += [dict(v, oracle=v["oracle"].replace("%s." % self.world.WORLD, "%s." % w, 1)) for v in ev]
         vs.sort(key=lambda v: (v["at"] if v["at"] is not None else 10 ** 9))
-        return vs, [jr]
+        return vs, jrs
+
+    def stats(self, plan, jrs):
+        s = self.judge_world(plan).stats(plan, jrs[0])
+        if len(jrs) > 1:
+            s["runs_also_in_interpreted_engine"] = 1
+            s["line_events_interpreted"] = sum((o or {}).get("lines", 0) for o in jrs[1]["obs"])
+        return s
 
 
 class C05(Spec):
@@ -117,35 +148,23 @@ class C19(KSpec):
             return self.world_r.gen(rng, tier, self.prop)
         return self.world.gen(rng, tier, self.prop)
 
-    def _w(self, plan):
+    def judge_world(self, plan):
         return self.world_r if plan["world"] == "R" else self.world
 
     def signature(self, plan):
-        return plan["world"] + self._w(plan).signature(plan)
-
-    def stats(self, plan, jrs):
-        return self._w(plan).stats(plan, jrs[0])
-
-    def evaluate(self, lane, plan, **kw):
-        jr = lane.run(plan, engine=self.engines[0], **kw)
-        vs = self._w(plan).judge(plan, jr, self.prop)
-        ev = self.end_violations(plan, jr, self.engines[0])
-        if plan["world"] == "R":
-            ev = [dict(v, oracle=v["oracle"].replace("K.", "R.")) for v in ev]
-        vs += ev
-        vs.sort(key=lambda v: (v["at"] if v["at"] is not None else 10 ** 9))
-        return vs, [jr]
-
+        return plan["world"] + self.judge_world(plan).signature(plan)
 
     rule = ("one run = one seeded history of narrow-phase calls (all GJK flavours, EPA, MPR) on 1-4 collider slots "
-            "incl. identical object twice, nested, touching, needle/flat, zero-volume hulls, lattice placements, with "
-            "pose changes and cache-warming bursts in between; the virtual clock counts support evaluations per "
-            "collider (budget 1000); non-trivial = at least one narrow-phase call executed; distinct = distinct "
-            "history signatures")
+            "incl. identical object twice, nested, touching, hair's-breadth gaps, needle/flat shapes, zero-volume hulls, "
+            "lattice placements, with pose changes and cache-warming bursts in between - or (12 % of the runs) a BVH "
+            "history whose detect / detect_any calls are clocked per gjk call; the virtual clock counts support "
+            "evaluations per collider (budget 1000); non-trivial = at least one narrow-phase call executed under the "
+            "clock; distinct = distinct history signatures")
 
 
 class C06(Spec):
     warm_runs = 25
+    py_line_budget = 100000000  # detect + the all-pairs twin verdicts take up to ~10^7 interpreted lines per op
     rule = ("one run = one seeded history on 1-2 BoundingVolumeHierarchy objects over real UrdfTransformManagers loaded "
             "from generated URDF text (chains and branching trees, sphere/box/cylinder geometry) plus free colliders "
             "(capsule, cone, ellipsoid, mesh, ...) with seeded asymmetric whitelists: set_joint / add_transform changes, "
@@ -166,6 +185,7 @@ class C06(Spec):
 
 class C16(Spec):
     warm_runs = 12
+    py_line_budget = 0  # a contact_forces op legitimately takes 10^7..10^8 interpreted lines: wall-clock watchdog only
     rule = ("one run = one seeded history on 2-3 hydroelastic RigidBody objects from the six factories (general "
             "rotations of all bodies): contact_forces / find_contact_surface calls that re-express body 1 in place, "
             "duplicated calls, changing partners, update_pose before the first re-expression, Young's modulus changes; "
